@@ -49,7 +49,8 @@ def n_cases(tier):
 
 
 def gen_case(rng, tier, idx):
-    return {"root": "wb" if idx % 4 != 3 else "csr", "max_space": 10 if tier == "quick" else 13,
+    return {"root": "wb" if idx % 4 != 3 else "csr",
+            "max_space": (13 if rng.random() < 0.25 else 10) if tier == "quick" else rng.choice([10, 13, 13, 15]),
             "hole_budget": 96 if tier == "quick" else 256}
 
 
@@ -80,15 +81,19 @@ class Build:
         rng = self.rng
         kind = rng.choice(["mux", "mux", "bridge", "bridge", "evmon", "gpio"])
         if kind == "mux":
-            k = rng.randint(1, aw)
+            k = aw if rng.random() < 0.4 else rng.randint(1, aw)
             mm = MemoryMap(addr_width=k, data_width=dw, alignment=rng.choice([0, 0, 1]) if k > 2 else 0)
             ok = 0
             for _ in range(rng.randint(1, 4)):
                 w = rng.choice([1, dw, dw + 1, 2 * dw, 3 * dw - 1, rng.randint(0, 3 * dw)])
                 p = Probe(w, rng.choice(["r", "w", "rw", "rw"]))
+                kw = {}
+                if rng.random() < 0.35:
+                    # anywhere in the leaf's address space, not only packed from address 0
+                    kw["addr"] = rng.randrange(1 << k) // (1 << mm.alignment) * (1 << mm.alignment)
                 try:
                     mm.add_resource(p, name=(self.uid("reg"),), size=max(1, (w + dw - 1) // dw),
-                                    alignment=rng.choice([None, None, 0, 1]))
+                                    alignment=rng.choice([None, None, 0, 1]), **kw)
                     ok += 1
                     if p.element.access.readable() and w:
                         self.probe_inputs.append((p.element.r_data, w))
@@ -108,7 +113,7 @@ class Build:
             self.claims[id(mm)] = "csr"
             return mux.bus
         if kind == "bridge":
-            k = rng.randint(1, aw)
+            k = aw if rng.random() < 0.4 else rng.randint(1, aw)
             b = csr.Builder(addr_width=k, data_width=dw, granularity=8 if dw % 8 == 0 else dw)
             regs = []
 
@@ -130,7 +135,11 @@ class Build:
                             with b.Index(i):
                                 b.add("el", mkreg())
                 else:
-                    b.add(self.uid("r"), mkreg())
+                    ratio_ = dw // (8 if dw % 8 == 0 else dw)
+                    off = None
+                    if rng.random() < 0.35:
+                        off = rng.randrange(1 << k) // 4 * 4 * ratio_        # explicit offset somewhere in the space
+                    b.add(self.uid("r"), mkreg(), offset=off)
             try:
                 mm = b.as_memory_map()
             except ValueError:
@@ -201,6 +210,9 @@ class Build:
                 dec.add(sub, name=None if rng.random() < 0.5 else self.uid("w"), **kw)
             except ValueError:
                 pass          # does not fit: that subtree stays unreachable (and must stay silent)
+            if rng.random() < 0.2:
+                mm_ = dec.bus.memory_map     # read-only queries on a partly built decoder
+                list(mm_.window_patterns()), list(mm_.all_resources())
         return dec.bus
 
     # ---- Wishbone side -------------------------------------------------------------------------
